@@ -7,7 +7,7 @@
    earlier versions of the code (kept for the refuted statements).  Single promise: Join is not
    in this model. *)
 From CV Require Import Promise.Promise Promise.PromiseProofs Promise.PromiseStepProofs Promise.MuProofs
-  Promise.PromiseTheorems Promise.PromiseLive Promise.PromiseProxies Promise.PromiseJoin Promise.PromiseJoinProofs Promise.PromiseJoinThms.
+  Promise.PromiseTheorems Promise.PromiseLive Promise.PromiseProxies Promise.PromiseJoin Promise.PromiseJoinProofs Promise.PromiseJoinThms Promise.PromiseJoinInv.
 Open Scope Z_scope.
 
 (* the promise resolves at most once; Fulfill/Reject after the first one panics (OPanic), the
@@ -168,13 +168,42 @@ Theorem C11_join_pipelined_exactly_once_partial : forall v np ops c, jreach v np
   forall t th, nth_error (jthreads c) t = Some th ->
     match j_op th with
     | JSend _ _ _ =>
-      (cnt (is_deliver t) (jevents c) <= 1)%nat /\
-      (j_pc th = QDone -> cnt (is_deliver t) (jevents c) = 1%nat)
+      (jcnt (jis_deliver t) (jevents c) <= 1)%nat /\
+      (j_pc th = QDone -> jcnt (jis_deliver t) (jevents c) = 1%nat)
     | JCall _ _ =>
-      (cnt (is_deliver t) (jevents c) <= 1)%nat /\
-      (j_pc th = QDone -> (j_out th = ONoSlot /\ cnt (is_deliver t) (jevents c) = 0%nat) \/
-                          (j_out th = ORet /\ cnt (is_deliver t) (jevents c) = 1%nat))
+      (jcnt (jis_deliver t) (jevents c) <= 1)%nat /\
+      (j_pc th = QDone -> (j_out th = ONoSlot /\ jcnt (jis_deliver t) (jevents c) = 0%nat) \/
+                          (j_out th = ORet /\ jcnt (jis_deliver t) (jevents c) = 1%nat))
     | _ => True
     end.
 Proof. exact join_pipelined_exactly_once. Qed.
 Print Assumptions C11_join_pipelined_exactly_once_partial.
+
+(* ---- joined chains (model PromiseJoin.v): all variants / all numbers of promises / all op lists / all
+   interleavings *)
+
+(* client_idempotent on chains, mu part (ordered locking, no leaked mutex): a promise's mu is held at a section
+   boundary only by a Join thread on that promise that is about to lock the promise it joins; when every
+   operation has finished every mu is free.  (For the code as found, F11c, this fails: C11_join_nil_table_refuted.) *)
+Theorem C11_join_mu_discipline : forall v np ops c, jv_alloc_table v = true -> jreach v np ops c ->
+  (forall k t, p_mu (getp c k) = Some t ->
+     exists th, nth_error (jthreads c) t = Some th /\ j_pc th = QJPar /\ j_cur th = k) /\
+  ((forall t, jfinished c t = true) -> forall k, p_mu (getp c k) = None).
+Proof. exact join_mu_discipline. Qed.
+Print Assumptions C11_join_mu_discipline.
+
+(* resolve_once on chains: per promise, at most one Fulfill / Reject / Join passes the isUnresolved check, the
+   result is set at most once, and it is set iff JEResolved was logged for it *)
+Theorem C11_join_resolve_once : forall v np ops c, jreach v np ops c -> forall k,
+  (jcnt (jis_begin k) (jevents c) <= 1)%nat /\ (jcnt (jis_resolved k) (jevents c) <= 1)%nat /\
+  (p_caller (getp c k) = true -> jcnt (jis_begin k) (jevents c) = 0%nat /\ p_result (getp c k) = None) /\
+  (jcnt (jis_resolved k) (jevents c) = 1%nat <-> exists r, p_result (getp c k) = Some r).
+Proof. exact join_resolve_once. Qed.
+Print Assumptions C11_join_resolve_once.
+
+(* destination on chains, first half: a call is handed to the PipelineCaller of the promise at the end of the
+   traversal only while that promise has not left the unresolved state.  PARTIAL: that the other deliveries go
+   to what the leaf's result holds is proved for the single-promise model only. *)
+Theorem C11_join_caller_before_resolution_partial : forall v np ops c, jreach v np ops c -> wf_jcaller (jevents c).
+Proof. exact join_caller_before_resolution. Qed.
+Print Assumptions C11_join_caller_before_resolution_partial.
